@@ -3,6 +3,7 @@ package c04
 
 import (
 	"fmt"
+	"github.com/mandykoh/prism/linear"
 	"image/color"
 	"math"
 	"sync"
@@ -26,6 +27,11 @@ type Case struct {
 	G   uint8  `json:"g"`
 	B   uint8  `json:"b"`
 	A   uint8  `json:"a"`
+	// Via: which constructors/encoders carry the opaque pixel through the same pipeline ("" = ColorFromNRGBA ->
+	// ToNRGBA): "rgba" ColorFromRGBA -> ToRGBA, "encoded" ColorFromEncodedColor(color.NRGBA) -> ToNRGBA,
+	// "encoded64" ColorFromEncodedColor(color.NRGBA64 of 257*v) -> ToRGBA64 (compared in 8-bit code units).
+	// Used with alpha 255 only, where premultiplied and non-premultiplied pixels coincide.
+	Via string `json:"via,omitempty"`
 }
 
 func idx(name string) int {
@@ -38,6 +44,36 @@ func idx(name string) int {
 }
 
 // the documented pipeline (README "Colour conversion" / "Chromatic adaptation")
+func pipelineVia(s, d *sp.API, p color.NRGBA, via string) (out [3]float64, alphaOut float64) {
+	var c linear.RGB
+	var alpha float32
+	switch via {
+	case "rgba":
+		c, alpha = s.FromRGBA(color.RGBA{R: p.R, G: p.G, B: p.B, A: p.A})
+	case "encoded":
+		c, alpha = s.FromEncoded(p)
+	case "encoded64":
+		c, alpha = s.FromEncoded(color.NRGBA64{R: uint16(p.R) * 257, G: uint16(p.G) * 257, B: uint16(p.B) * 257, A: uint16(p.A) * 257})
+	default:
+		c, alpha = s.FromNRGBA(p)
+	}
+	xyz := s.ToXYZ(c)
+	if s.White() != d.White() {
+		xyz = ciexyz.AdaptBetweenXYYWhitePoints(s.White(), d.White()).Apply(xyz)
+	}
+	dc := d.FromXYZ(xyz)
+	switch via {
+	case "rgba":
+		o := d.ToRGBA(dc, alpha)
+		return [3]float64{float64(o.R), float64(o.G), float64(o.B)}, float64(o.A)
+	case "encoded64":
+		o := d.ToRGBA64(dc, alpha)
+		return [3]float64{float64(o.R) / 257, float64(o.G) / 257, float64(o.B) / 257}, float64(o.A) / 257
+	}
+	o := d.ToNRGBA(dc, alpha)
+	return [3]float64{float64(o.R), float64(o.G), float64(o.B)}, float64(o.A)
+}
+
 func pipeline(s, d *sp.API, p color.NRGBA) color.NRGBA {
 	c, alpha := s.FromNRGBA(p)
 	xyz := s.ToXYZ(c)
@@ -103,31 +139,40 @@ func check(c Case) (kind, what string, nt bool) {
 	si, di := idx(c.Src), idx(c.Dst)
 	s, d := &sp.Spaces[si], &sp.Spaces[di]
 	pr := getRef(si, di)
-	var out color.NRGBA
-	if p, msg := ev.Guard(func() { out = pipeline(s, d, color.NRGBA{R: c.R, G: c.G, B: c.B, A: c.A}) }); p {
+	var got [3]float64
+	var outA float64
+	if p, msg := ev.Guard(func() { got, outA = pipelineVia(s, d, color.NRGBA{R: c.R, G: c.G, B: c.B, A: c.A}, c.Via) }); p {
 		return "panic", msg, true
 	}
 	lin := pr.m.MulV(ref.V3{pr.lut[c.R], pr.lut[c.G], pr.lut[c.B]})
-	got := [3]uint8{out.R, out.G, out.B}
 	nt = pr.adapt
 	for i := 0; i < 3; i++ {
 		if lin[i] < 0 || lin[i] > 1 {
 			nt = true
 		}
 		lo, hi := bounds(d.Ref, lin[i])
-		if float64(got[i]) < lo || float64(got[i]) > hi {
+		if got[i] < lo || got[i] > hi {
 			k := "channel"
 			if (lin[i] > 1.01 && got[i] < 128) || (lin[i] < -0.01 && got[i] > 128) {
 				k = "wrap"
 			}
-			return k, fmt.Sprintf("%s->%s pixel (%d,%d,%d,a=%d): channel %d = %d, reference linear %.7f admits codes [%.3f, %.3f]", c.Src, c.Dst, c.R, c.G, c.B, c.A, i, got[i], lin[i], lo, hi), true
+			return k, fmt.Sprintf("%s->%s pixel (%d,%d,%d,a=%d)%s: channel %d = %.4g, reference linear %.7f admits codes [%.3f, %.3f]", c.Src, c.Dst, c.R, c.G, c.B, c.A, viaNote(c.Via), i, got[i], lin[i], lo, hi), true
 		}
 	}
-	if out.A != c.A {
-		return "alpha", fmt.Sprintf("%s->%s pixel (%d,%d,%d,a=%d): alpha out %d", c.Src, c.Dst, c.R, c.G, c.B, c.A, out.A), true
+	if outA != float64(c.A) {
+		return "alpha", fmt.Sprintf("%s->%s pixel (%d,%d,%d,a=%d)%s: alpha out %v", c.Src, c.Dst, c.R, c.G, c.B, c.A, viaNote(c.Via), outA), true
 	}
 	return "", "", nt
 }
+
+func viaNote(v string) string {
+	if v == "" {
+		return ""
+	}
+	return " via " + v
+}
+
+var vias = []string{"rgba", "encoded", "encoded64"}
 
 func TestC04(t *testing.T) {
 	if ev.Replaying() != nil {
@@ -141,7 +186,7 @@ func TestC04(t *testing.T) {
 		fmt.Println("REPLAY case passed:", c)
 		return
 	}
-	ev.Rule("16 ordered (source,destination) pairs x NRGBA pixels through the README pipeline. quick: 64^3 lattice incl. 0 and 255, all greys, the six cube faces at stride 3, all 256 alphas on 64 colours, rapid pixels; thorough: all 2^24 RGB at alpha 255 per pair plus 256 alphas x 4096 colours. non-trivial = distinct (pair, pixel) whose reference result is out of gamut in some channel or whose pair needs chromatic adaptation")
+	ev.Rule("16 ordered (source,destination) pairs x NRGBA pixels through the README pipeline (opaque pixels also through ColorFromRGBA/ToRGBA, ColorFromEncodedColor of NRGBA and NRGBA64, ToRGBA64). quick: 64^3 lattice incl. 0 and 255, all greys, the six cube faces at stride 3, all 256 alphas on 64 colours, rapid pixels; thorough: all 2^24 RGB at alpha 255 per pair plus 256 alphas x 4096 colours. non-trivial = distinct (pair, pixel) whose reference result is out of gamut in some channel or whose pair needs chromatic adaptation")
 	ev.Assume("internal/ref EOTF/OETF, matrix derivation from the declared chromaticities, Bradford adaptation")
 	ev.Set("interval", map[string]float64{"half_step": halfStep, "half_code": 0.5, "slack_codes": slack})
 	var sampleMu sync.Mutex
@@ -187,7 +232,7 @@ func TestC04(t *testing.T) {
 					defer func() { <-sem }()
 					for _, g := range vals {
 						for _, b := range vals {
-							run(Case{s.Name, d.Name, uint8(r), uint8(g), uint8(b), 255})
+							run(Case{Src: s.Name, Dst: d.Name, R: uint8(r), G: uint8(g), B: uint8(b), A: 255})
 						}
 					}
 				}(r)
@@ -195,14 +240,31 @@ func TestC04(t *testing.T) {
 			wg.Wait()
 			if !ev.Thorough() {
 				for v := 0; v < 256; v++ {
-					run(Case{s.Name, d.Name, uint8(v), uint8(v), uint8(v), 255})
+					run(Case{Src: s.Name, Dst: d.Name, R: uint8(v), G: uint8(v), B: uint8(v), A: 255})
 				}
 				for _, f := range []int{0, 255} {
 					for u := 0; u < 256; u += 3 {
 						for w := 0; w < 256; w += 3 {
-							run(Case{s.Name, d.Name, uint8(f), uint8(u), uint8(w), 255})
-							run(Case{s.Name, d.Name, uint8(u), uint8(f), uint8(w), 255})
-							run(Case{s.Name, d.Name, uint8(u), uint8(w), uint8(f), 255})
+							run(Case{Src: s.Name, Dst: d.Name, R: uint8(f), G: uint8(u), B: uint8(w), A: 255})
+							run(Case{Src: s.Name, Dst: d.Name, R: uint8(u), G: uint8(f), B: uint8(w), A: 255})
+							run(Case{Src: s.Name, Dst: d.Name, R: uint8(u), G: uint8(w), B: uint8(f), A: 255})
+						}
+					}
+				}
+			}
+			// the other constructors and encoders on a coarser lattice of opaque pixels (17^3 quick, 52^3 thorough)
+			vstep := ev.Pick(16, 5)
+			for _, via := range vias {
+				for r := 0; r < 256+vstep; r += vstep {
+					for g := 0; g < 256+vstep; g += vstep {
+						for b := 0; b < 256+vstep; b += vstep {
+							m := func(v int) uint8 {
+								if v > 255 {
+									return 255
+								}
+								return uint8(v)
+							}
+							run(Case{Src: s.Name, Dst: d.Name, R: m(r), G: m(g), B: m(b), A: 255, Via: via})
 						}
 					}
 				}
@@ -217,7 +279,7 @@ func TestC04(t *testing.T) {
 					evals++
 					out := pipeline(s, d, color.NRGBA{R: r, G: g, B: b, A: uint8(a)})
 					if out.A != uint8(a) || out.R != base.R || out.G != base.G || out.B != base.B {
-						c := Case{s.Name, d.Name, r, g, b, uint8(a)}
+						c := Case{Src: s.Name, Dst: d.Name, R: r, G: g, B: b, A: uint8(a)}
 						ev.Violation("pipeline", pair+"/alpha", fmt.Sprintf("%s pixel (%d,%d,%d) alpha %d -> %v; with alpha 255 -> %v", pair, r, g, b, a, out, base), c)
 						atomic.StoreInt32(&bad, 1)
 						break
@@ -229,7 +291,7 @@ func TestC04(t *testing.T) {
 			ev.Class(pair, evals)
 			sampleMu.Lock()
 			if si != di && ev.SampleN() < 6 {
-				c := Case{s.Name, d.Name, 255, 0, 128, 200}
+				c := Case{Src: s.Name, Dst: d.Name, R: 255, G: 0, B: 128, A: 200}
 				o := pipeline(s, d, color.NRGBA{R: 255, G: 0, B: 128, A: 200})
 				pr := getRef(si, di)
 				lin := pr.m.MulV(ref.V3{pr.lut[255], pr.lut[0], pr.lut[128]})
@@ -245,6 +307,9 @@ func TestC04(t *testing.T) {
 			Src: sp.Spaces[rapid.IntRange(0, 3).Draw(rt, "src")].Name,
 			Dst: sp.Spaces[rapid.IntRange(0, 3).Draw(rt, "dst")].Name,
 			R:   rapid.Uint8().Draw(rt, "r"), G: rapid.Uint8().Draw(rt, "g"), B: rapid.Uint8().Draw(rt, "b"), A: rapid.Uint8().Draw(rt, "a"),
+		}
+		if rapid.IntRange(0, 2).Draw(rt, "othervia") == 0 {
+			c.Via, c.A = rapid.SampledFrom(vias).Draw(rt, "via"), 255
 		}
 		ev.Eval(1)
 		k, w, nt := check(c)
